@@ -63,6 +63,16 @@ CHECK_DEADLOCK FALSE
 """
 
 
+SIMPLE_TRACE_CFG = """SPECIFICATION Spec
+CONSTANTS
+  TraceFile = "%(trace)s"
+INVARIANT Report
+POSTCONDITION Accepted
+VIEW View
+CHECK_DEADLOCK FALSE
+"""
+
+
 def driver_crash(ctx, p, args):
     """A driver that hosts real nodes died: if QED code panicked, that is real behaviour, not infrastructure."""
     err = (p.stderr or "") + (p.stdout or "")
@@ -175,6 +185,30 @@ def api_tv_stage(ctx):
     ctx.drv_par = None
 
 
+TOPO_TRACE_CFG = SIMPLE_TRACE_CFG.replace('TraceFile = "%(trace)s"', 'TraceFile = "%(trace)s"\n  ReuseKeepsNodeType = FALSE')
+
+
+def clienttopo_tv_stage(ctx):
+    """one real step of the client's endpoint selection per specification transition -> Trace_ClientTopology.tla"""
+    trace_files_stage(ctx, "clienttopo", "clienttopo", ctx.pick(8, 16), module="Trace_ClientTopology", cfg=TOPO_TRACE_CFG)
+
+
+def clientcalls_tv_stage(ctx):
+    """real HTTPClient call loops against a scripted cluster -> Trace_Client.tla"""
+    trace_files_stage(ctx, "clientcalls", "clientcalls", ctx.pick(8, 16), module="Trace_Client", cfg=SIMPLE_TRACE_CFG)
+
+
+mc_clienttopo = mc_stage("MC_ClientTopology", """SPECIFICATION Spec
+CONSTANTS
+  MaxOps = @MaxOps@
+  ReuseKeepsNodeType = FALSE
+INVARIANT Safe
+INVARIANT Fair
+INVARIANT PrimaryWellFormed
+CHECK_DEADLOCK FALSE
+""", quick={"MaxOps": 4}, thorough={"MaxOps": 5}, timeout=6000)
+
+
 def adversary_tv_stage(ctx):
     """Altered / recombined / forged answers -> real JSON decoder + real verifier -> Trace_Balloon.tla"""
     trace_files_stage(ctx, "adversary", "adv", ctx.pick(8, 16))
@@ -217,14 +251,7 @@ RULE_BALLOON = ("MC: every tree size up to MaxN, every (index, version)/(start, 
                 "batch/cache boundary + random ones; random Add/AddBulk splits, duplicates, reopen points, RocksDB and B+ store); "
                 "a case is distinct by (event kind, versions involved); non-trivial = add/member/incr events (resets excluded)")
 
-SIMPLE_TRACE_CFG = """SPECIFICATION Spec
-CONSTANTS
-  TraceFile = "%(trace)s"
-INVARIANT Report
-POSTCONDITION Accepted
-VIEW View
-CHECK_DEADLOCK FALSE
-"""
+
 
 
 def store_tv_stage(ctx):
@@ -353,6 +380,12 @@ PLANS = {
                 "{0, cur, cur+1, 2^63, 2^64-1, -1, 1.5, 2^64}, digest lengths {0,1,3,4,31,32,33,64}, start>end, backupID missing/invalid/unknown) fired at "
                 "the real handlers over a real single-node RaftNode in a child process; after each request the version is read; at the end a "
                 "liveness probe, a restart (log replay) and a second probe; distinct = (method, path, shape)"),
+    "C20": plan("model_checking", [mc_clienttopo, clienttopo_tv_stage, clientcalls_tv_stage],
+                "MC: ClientTopology.tla over urls {a,b,c}: every update (any primary incl. none, any list of <= 3 secondaries), every dead/alive mark, every "
+                "selection with each of the 5 read preferences, revive on/off, all operation sequences up to MaxOps (Safe + Fair), exhaustive. TV 1: seeded "
+                "operation sequences on the REAL topology object (verif hook), one real step per specification transition with full state projection before "
+                "and after. TV 2: the real HTTPClient (all preference / discovery / health-check / revive combinations) against a scripted 3-node cluster with "
+                "seeded fault sequences (down, 4xx, 5xx, leader change, stale configuration); distinct = (operation, preference, state shape) / (call kind, fault history)"),
     "C12": plan("model_checking", [mc_balloon, adversary_tv_stage], RULE_ADV),
 }
 
